@@ -47,10 +47,15 @@ def defaultVal (e : Entry) : Val :=
     else .str 3
   | _ => .int 1
 
+/-- a canonical value for the entries recorded under one key (they have one type) -/
+def headVal : List Entry → Val
+  | e :: _ => defaultVal e
+  | [] => .other
+
 /-- canonical arguments for a result: a tuple for unnamed specifications, a mapping for named ones -/
 def argsOf (r : Result) : Args :=
   if r.map.isEmpty then .tuple (r.seq.map defaultVal)
-  else .dict (r.map.map fun (k, es) => (k, match es with | e :: _ => defaultVal e | [] => .other))
+  else .dict (r.map.map fun p => (p.1, headVal p.2))
 
 /-- **The domain of property C12**: no `%` conversion carries a key, flag, width, precision or length — every
     conversion specification the parser's scanner reads whose conversion character is `%` is exactly `%%`.
